@@ -145,12 +145,17 @@ class TrotterStep:
         self.factor = factor
         if swaps_before is None:
             self.swaps_before = SWAPlist()
-        else:
+        elif isinstance(swaps_before, SWAPlist):
             self.swaps_before = swaps_before
+        else:
+            # A plain list of pairs is allowed as well.
+            self.swaps_before = SWAPlist(swaps_before)
         if swaps_after is None:
             self.swaps_after = SWAPlist()
-        else:
+        elif isinstance(swaps_after, SWAPlist):
             self.swaps_after = swaps_after
+        else:
+            self.swaps_after = SWAPlist(swaps_after)
 
     def exponentiate_operator(self,
                               delta_time: float,
